@@ -313,6 +313,9 @@ def bilin_inv(
         det = Fx * Gy - Fy * Gx
         x -= (Gy * (Fs - f) - Fy * (Gs - g)) / det
         y -= (-Gx * (Fs - f) + Fx * (Gs - g)) / det
+        # Keep the iterate inside the grid (i + 1 and j + 1 must be valid indices)
+        x = np.clip(x, 0.0, imax - 1.0001)
+        y = np.clip(y, 0.0, jmax - 1.0001)
 
     return x, y
 
